@@ -62,6 +62,8 @@ def make_source(kind, scratch):
     pdf = base_table()
     if kind == "from_pandas":
         return dx.from_pandas(pdf, npartitions=6)
+    if kind == "from_pandas_many":
+        return dx.from_pandas(pdf, npartitions=12)  # more partitions than the default tree-reduction fan-in (combine levels exist)
     if kind == "from_pandas_unsorted":
         return dx.from_pandas(pdf.iloc[np.random.RandomState(3).permutation(N)], npartitions=5, sort=False)
     if kind == "from_pandas_chunksize":
@@ -104,7 +106,7 @@ def make_source(kind, scratch):
     raise ValueError(kind)
 
 
-SOURCES = ["from_pandas", "from_pandas_unsorted", "from_pandas_chunksize", "from_pandas_1", "from_array", "from_map", "from_map_projectable", "from_map_divisions",
+SOURCES = ["from_pandas", "from_pandas_many", "from_pandas_unsorted", "from_pandas_chunksize", "from_pandas_1", "from_array", "from_map", "from_map_projectable", "from_map_divisions",
            "from_delayed", "persisted", "legacy", "csv", "parquet_fsspec", "parquet_arrow", "timeseries"]
 
 
@@ -118,6 +120,10 @@ def _small2(x):
     import dask_expr as dx
 
     return dx.from_pandas(pd.DataFrame({"a": np.arange(6), "w": np.arange(6) * 10.0}), npartitions=2)
+
+
+def _mp_info(p, partition_info=None):
+    return p.assign(pnum=-1 if partition_info is None else partition_info["number"])
 
 
 def _mp(p):
@@ -142,12 +148,15 @@ CHAINS = {
     "shuffle_staged_more": lambda x: x.shuffle("a", npartitions=x.npartitions + 2, max_branch=2),
     "set_index": lambda x: x.set_index("c"),
     "sort_values": lambda x: x.sort_values("c"),
+    "sort_values_desc": lambda x: x.sort_values("c", ascending=False),
+    "sort_values_na_first": lambda x: x.assign(bn=x.b.where(x.b > 2)).sort_values(["bn", "c"], na_position="first"),
+    "map_partitions_info": lambda x: x.map_partitions(_mp_info, meta=_mp_info(x._meta)),
     "cumsum": lambda x: x[["a", "b"]].cumsum(),
     "map_partitions": lambda x: x.map_partitions(_mp),
     "fillna_astype": lambda x: x[["a", "b"]].astype({"a": "float64"}).fillna(0),
     "two_filters": lambda x: x[x.a > 0][["a", "b", "c"]][lambda d: d.b < 9],
 }
-SELECTIONS = ["single0", "single_mid", "last", "slice", "reordered", "repeated", "all", "get_partition", "to_delayed",
+SELECTIONS = ["single0", "single_mid", "single_np_int", "last", "slice", "reordered", "repeated", "all", "get_partition", "to_delayed",
               "head1", "head3", "head7", "head100", "head7_k2", "head7_kall", "head3_k2", "tail1", "tail3", "tail100"]
 
 
@@ -169,6 +178,8 @@ def pick(sel, n):
     if sel == "single0":
         return [0]
     if sel == "single_mid":
+        return [n // 2]
+    if sel == "single_np_int":
         return [n // 2]
     if sel == "last":
         return [n - 1]
@@ -192,9 +203,9 @@ def run_case(case):
         counters[k] = counters.get(k, 0) + v
 
     rng = derive_rng("C11", case["seed"], case["source"], case["chain"], case["sel"])
-    method = "disk" if (case["chain"] in ("shuffle", "shuffle_np", "set_index", "sort_values")) and rng.random() < 0.3 else "tasks"
+    method = "disk" if (case["chain"] in ("shuffle", "shuffle_np", "set_index", "sort_values", "sort_values_desc", "sort_values_na_first")) and rng.random() < 0.3 else "tasks"
     with dask.config.set({"dataframe.shuffle.method": method}):
-        if case["source"] == "timeseries" and case["chain"] in ("set_index", "sort_values"):
+        if case["source"] == "timeseries" and case["chain"] in ("set_index", "sort_values", "sort_values_desc", "sort_values_na_first"):
             return {"status": "undecided", "counters": {"skipped_tied_sort_keys": 1}}  # generated key column has ties: order among ties undefined
         try:
             src = make_source(case["source"], scratch)
@@ -229,15 +240,15 @@ def run_case(case):
             return dict(d, oracle=where) if d else None
 
         try:
-            if sel in ("single0", "single_mid", "last", "slice", "reordered", "repeated", "all", "get_partition"):
+            if sel in ("single0", "single_mid", "single_np_int", "last", "slice", "reordered", "repeated", "all", "get_partition"):
                 if sel == "get_partition":
                     i = rng.randrange(n)
                     P = [i]
                     y = x.get_partition(i)
                 else:
                     P = pick(sel, n)
-                    y = x.partitions[P]
-                if (sel in ("reordered", "repeated") and case["chain"] in ("cumsum",)) or (sel == "repeated" and case["chain"] in ("set_index", "sort_values")):
+                    y = x.partitions[np.int64(P[0])] if sel == "single_np_int" else x.partitions[P]
+                if (sel in ("reordered", "repeated") and case["chain"] in ("cumsum",)) or (sel == "repeated" and case["chain"] in ("set_index", "sort_values", "sort_values_desc", "sort_values_na_first")):
                     # outputs with sorted (monotone) divisions: a repeated selection cannot keep them monotone; the optimized plan
                     # then keeps each selected partition once (observed, not judged)
                     return {"status": "undecided", "counters": {"skipped_monotone_required": 1}}
